@@ -1361,8 +1361,14 @@ func funToString(v interface{}) (string, error) {
 
 func funToInt(v interface{}) (*decimal.Big, error) {
 	n := convToNumber(v)
-	iv, _ := n.Int64()
-	return newDecimalBig().SetMantScale(iv, 0), nil
+	iv, ok := n.Int64()
+	if ok || !n.IsFinite() {
+		return newDecimalBig().SetMantScale(iv, 0), nil
+	}
+	// beyond 64 bits Int64 reports 0: truncate toward zero in decimal
+	result := newDecimalBig().Copy(n)
+	result.Context.RoundingMode = decimal.ToZero
+	return result.RoundToInt(), nil
 }
 
 func funToFloat(v interface{}) (*decimal.Big, error) {
